@@ -276,7 +276,7 @@ R13_SLICE_VARS = set()
 
 
 def rule_R13_desugar(text):
-    """R13 (opt-in, `//@ desugar`): `for (I, E) in X.iter_mut().enumerate() { B }` and `for E in X.iter_mut() { B }` become the
+    """R13 (opt-in, `//@ desugar`): `for (I, E) in X.iter_mut().enumerate() { B }` and `for E in X.iter_mut() { B }` (shared: `for E in X.iter() { B }`) become the
     index loop they abbreviate: `let mut verif_k = 0; while verif_k < X.len() { let I = verif_k; let E = &mut X[verif_k]; B verif_k += 1; }`.
     Element values are kept (unlike R8/R11).  The loop keeps its ordinal; the expansion stays on the header line."""
     n = 0
@@ -301,6 +301,10 @@ def rule_R13_desugar(text):
                 break
             # `for e in slice_var` (by-value iteration of a `&mut [T]` / `&[T]` binding): the elements are only read in the bodies
             # this rule is applied to; a body that assigns through `e` no longer type-checks (-> INCONCLUSIVE)
+            z = re.fullmatch(r'(.+?)\.iter\(\)', hdr)
+            if z and len(names) == 1:
+                hit = (mt.start(), bo, z.group(1), None, names[0], 'shared')
+                break
             z = re.fullmatch(r'(\w+)', hdr)
             if z and len(names) == 1 and z.group(1) in R13_SLICE_VARS:
                 hit = (mt.start(), bo, z.group(1), None, names[0], 'shared')
